@@ -3,7 +3,7 @@ import io
 from hypothesis import strategies as st
 from vlib.core import Sub, Outcome, HarnessError, lib_frame
 from vlib import gen
-from vlib.interp import (Interp, BuilderInvalid, per_char, change_points, describe, renders, mk_settings, apply_op)
+from vlib.interp import (Interp, BuilderInvalid, Rejected, per_char, change_points, describe, renders, mk_settings, apply_op)
 from ansi_string import AnsiString, AnsiStr
 
 RULE = ('constructor matrix: source in {plain str, ANSI-coded str, AnsiString, AnsiStr} (formatted or not) x settings in {none, '
@@ -153,12 +153,16 @@ def eval_twin(case):
         c = S.copy()
         try:
             resS = run_op(c, op, operand_for(c))
+        except Rejected:
+            continue
         except Exception as e:
             if lib_frame(e)[0] != 'lib':
                 raise
             resE = e
         try:
             ress = run_op(s, op, operand_for(s))
+        except Rejected:
+            continue
         except Exception as e:
             if lib_frame(e)[0] != 'lib':
                 raise
@@ -212,7 +216,7 @@ def coverage_gap():
                  'casefold', 'expandtabs', 'split', 'rsplit', 'splitlines', 'partition', 'rpartition', 'simplify',
                  'clear_formatting', 'format_matching', 'unformat_matching', 'count', 'find', 'rfind', 'endswith', 'isupper',
                  'istitle', 'is_formatting_valid', 'is_formatting_parsable', 'is_optimizable', 'settings_at', 'find_settings',
-                 'ansi_settings_at', 'to_str', 'encode', 'base_str'}
+                 'ansi_settings_at', 'to_str', 'encode', 'base_str', 'apply_formatting_for_match'}
     # remaining str predicates / index are covered by C10 on both classes
     c10 = {'index', 'rindex', 'isalnum', 'isalpha', 'isascii', 'isdecimal', 'isdigit', 'isidentifier', 'islower', 'isnumeric',
            'isprintable', 'isspace'}
@@ -222,7 +226,7 @@ def coverage_gap():
 def self_test():
     gap = coverage_gap()
     # apply_formatting_for_match needs a match object; exercised through format_matching
-    allowed = {'apply_formatting_for_match'}
+    allowed = set()
     if set(gap) - allowed:
         raise AssertionError('methods shared by AnsiStr and AnsiString that the twin check does not exercise: %r' % gap)
 
@@ -255,7 +259,7 @@ def strat_ctor(draw):
     return {'src': src, 's': s}
 
 
-TWIN_OPS = [x for x in gen.BUILD_OPS if x not in ('assign', 'copy', 'conv', 'iadd')] + ['simplify', 'clear', 'add', 'join', 'index']
+TWIN_OPS = [x for x in gen.BUILD_OPS if x not in ('assign', 'copy', 'conv', 'iadd')] + ['simplify', 'clear', 'add', 'join', 'index', 'applymatch', 'applymatch']
 
 
 def strat_twin():
